@@ -18,7 +18,7 @@ def build_all(work, tag, cc, flags):
 def jobs_for(bins, tag, places, scale, seed):
     jobs = []
     for pl in places:
-        for mode in ('read', 'write', 'init', 'legacy', 'raw', 'views', 'history'):
+        for mode in ('read', 'write', 'init', 'legacy', 'raw', 'views', 'history', 'direct'):
             jobs.append((bins['fieldmon'], dict(VP_MODE=mode, VP_FORMATS='all', VP_REPS=8 * scale, VP_EPISODES=30 * scale, VP_PLACE=pl,
                                                 VP_SAMPLES=0), 'fieldmon/%s' % mode, tag, pl))
         jobs.append((bins['canmon'], dict(VP_REPS=1, VP_PLACE=pl), 'canmon/build', tag, pl))
